@@ -14,12 +14,15 @@ class EventLog:
         self.loop = loop
         self.events: list[dict] = []
         self.seq = 0
+        self.extra = None  # optional callable -> dict merged into every event (e.g. a context variable)
 
     def add(self, **ev):
         loop = self.loop
         if loop is not None:
             ev["t"] = loop.time()
             ev["step"] = getattr(loop, "steps", 0)
+        if self.extra is not None:
+            ev.update(self.extra())
         self.seq += 1
         ev["n"] = self.seq
         self.events.append(ev)
